@@ -780,8 +780,19 @@ def check_names_callers(ctx, repo, rule="R2"):
                         lossy = astq.call_name(x)
                     if isinstance(x, (ast.Set, ast.SetComp, ast.DictComp)):
                         lossy = "a set/dict display"
+                # names collected in a loop: every component must contribute (no `continue` / `break` / condition before the append)
+                if lossy is None and isinstance(arg, ast.Name):
+                    for loop in [x for x in astq.walk_no_nested(fn) if isinstance(x, ast.For)]:
+                        apps = [(i_, st_) for i_, st_ in enumerate(loop.body) if any(
+                            isinstance(x, ast.Call) and isinstance(x.func, ast.Attribute) and x.func.attr == "append" and dotted(x.func.value) == arg.id
+                            for x in ast.walk(st_))]
+                        for i_, st_ in apps:
+                            skipped = any(isinstance(x, (ast.Continue, ast.Break)) for prev in loop.body[:i_] for x in ast.walk(prev))
+                            conditional = not (isinstance(st_, ast.Expr))
+                            if skipped or conditional:
+                                lossy = "a loop that skips some components before `%s.append(...)`" % arg.id
                 ctx.check(lossy is None, rule, "%s.%s:_check_names-argument" % (c.qual, fn.name), "the names are handed over as they are",
-                          "%s.%s passes `%s` to _check_names: duplicates collapse in %s before the uniqueness test can reject them" % (
+                          "%s.%s passes `%s` to _check_names: names are lost in %s before the name checks can reject them" % (
                               c.name, fn.name, ast.unparse(arg) if arg is not None else "?", lossy), ctx.loc(c.module, call),
                           witness={"names": ["a", "a"]})
     ctx.count("check_names_callers", n)
